@@ -16,6 +16,7 @@ import (
 	"encoding/json"
 	"fmt"
 	"math/rand"
+	"os"
 	"sort"
 	"testing"
 
@@ -917,8 +918,11 @@ func TestVerifC06(t *testing.T) {
 		keys = append(keys, k)
 	}
 	sort.Strings(keys)
+	stats := ""
 	for _, k := range keys {
-		fmt.Printf("C06-STAT %s: %d\n", k, st.m[k])
+		stats += fmt.Sprintf("%s: %d\n", k, st.m[k])
 	}
+	// non-vacuity counters for the human reader (not an input of the verdict)
+	_ = os.WriteFile(os.Getenv("VERIF_OUT")+".stats", []byte(stats), 0o644)
 	t.Logf("C06: %d segments, %d events", rec.Segments(), rec.Events())
 }
